@@ -1763,7 +1763,7 @@ _ORD = {ast.Lt: lambda a, b: a < b, ast.LtE: lambda a, b: a <= b,
         ast.Gt: lambda a, b: a > b, ast.GtE: lambda a, b: a >= b}
 
 
-def numeric_version_order(report, R, db, P, funcs=None):
+def numeric_version_order(report, R, db, P, funcs=None, collections=True):
     """No function orders protocol numbers with < <= > >= (or an unkeyed
     max / min / sorted): snapshot numbers (PRE | n) are numerically above
     every release number, so numeric order disagrees with the order of
@@ -1805,8 +1805,11 @@ def numeric_version_order(report, R, db, P, funcs=None):
                 elif isinstance(x, ast.Call) and isinstance(x.func, ast.Name) \
                         and x.func.id in ('max', 'min', 'sorted') and \
                         not any(k.arg == 'key' for k in x.keywords) and \
-                        x.args and any(is_pv(a, pv_names) for a in x.args) \
-                        and len(x.args) > 1:
+                        x.args and (
+                            (len(x.args) > 1 and any(is_pv(a, pv_names)
+                                                     for a in x.args))
+                            or (collections and len(x.args) == 1
+                                and is_pv_collection(x.args[0]))):
                     sites += 1
                     report.violation(
                         R, 'numeric-order:%s:%s' % (fi.qualname, x.func.id),
@@ -1818,6 +1821,22 @@ def numeric_version_order(report, R, db, P, funcs=None):
         report.ok(R, '%d functions: no protocol number is ordered '
                   'numerically (%d ordering sites judged)' % (n, sites))
     return n
+
+
+_PV_COLLECTIONS = ('allowed_proto_versions', 'SUPPORTED_PROTOCOL_VERSIONS',
+                   'KNOWN_PROTOCOL_VERSIONS', 'RELEASE_PROTOCOL_VERSIONS')
+
+
+def is_pv_collection(e):
+    """an expression that is a collection of protocol numbers by name"""
+    if isinstance(e, ast.Attribute):
+        return e.attr in _PV_COLLECTIONS
+    if isinstance(e, ast.Name):
+        return e.id in _PV_COLLECTIONS
+    if isinstance(e, ast.Call) and isinstance(e.func, ast.Name) and \
+            e.func.id in ('set', 'list', 'tuple', 'sorted') and e.args:
+        return is_pv_collection(e.args[0])
+    return False
 
 
 def is_pv(e, names):
@@ -2077,3 +2096,76 @@ def decorator_form(report, R, db, S, M, outer_name, reg_name, option_keys):
         report.ok(R, outer_name + '(...)(f): one registration of f with the '
                   'captured types and options, nothing captured is changed, '
                   'f returned')
+
+
+# ---------------------------------------------------------------------------
+def shared_defaults(report, R, db, funcs, consequence):
+    """A default argument value is made once, when the function is defined.
+    A mutable one (a list / dict / set literal or constructor, an instance of
+    an in-repo class) that the function keeps (stores in an attribute or a
+    container, returns) or changes in place is shared by every call that
+    relies on the default."""
+    from .srcdb import ClassInfo
+    n = 0
+    bad = 0
+    for fi in funcs:
+        node = fi.node
+        if isinstance(node, ast.Lambda):
+            continue
+        a = node.args
+        pos = a.posonlyargs + a.args
+        pairs = list(zip(pos[len(pos) - len(a.defaults):], a.defaults)) + [
+            (x, d) for x, d in zip(a.kwonlyargs, a.kw_defaults)
+            if d is not None]
+        for arg, d in pairs:
+            n += 1
+            mut = _mutable_value(d)
+            if mut is None and isinstance(d, ast.Call):
+                try:
+                    ent = db.deref(db.resolve_dotted(fi.module, d.func))
+                except AnalysisError:
+                    ent = None
+                mut = isinstance(ent, ClassInfo)
+            if not mut:
+                continue
+            nm = arg.arg
+            kept = None
+            for x in ast.walk(node):
+                if isinstance(x, ast.Assign) and isinstance(
+                        x.value, ast.Name) and x.value.id == nm and any(
+                            isinstance(t, (ast.Attribute, ast.Subscript))
+                            for t in x.targets):
+                    kept = (x, 'is stored in %s' % ast.unparse(x.targets[0]))
+                elif isinstance(x, ast.Return) and isinstance(
+                        x.value, ast.Name) and x.value.id == nm:
+                    kept = (x, 'is returned')
+                elif isinstance(x, ast.Call) and isinstance(
+                        x.func, ast.Attribute) and isinstance(
+                            x.func.value, ast.Name) and \
+                        x.func.value.id == nm and x.func.attr in _MUTATING:
+                    kept = (x, 'is changed by .%s()' % x.func.attr)
+                elif isinstance(x, (ast.Subscript, ast.Attribute)) and \
+                        isinstance(x.ctx, (ast.Store, ast.Del)) and \
+                        isinstance(x.value, ast.Name) and x.value.id == nm:
+                    kept = (x, 'has %s assigned' % (
+                        'an item' if isinstance(x, ast.Subscript)
+                        else 'an attribute'))
+                elif isinstance(x, ast.Call) and any(
+                        isinstance(y, ast.Name) and y.id == nm
+                        for y in x.args) and isinstance(
+                            x.func, ast.Attribute) and x.func.attr in (
+                                'append', 'add', 'setdefault', 'insert'):
+                    kept = (x, 'is put into a container')
+                if kept:
+                    break
+            if kept:
+                bad += 1
+                report.violation(
+                    R, 'shared-default:%s:%s' % (fi.qualname, nm), fi.path,
+                    kept[0], fi.qualname, 'the default of `%s` (%s) is one '
+                    'object made when the function was defined, and it %s: '
+                    '%s' % (nm, ast.unparse(d)[:30], kept[1], consequence))
+    if not bad:
+        report.ok(R, '%d default values: none is a mutable object the '
+                  'function keeps or changes' % n)
+    return n
